@@ -94,6 +94,10 @@ Definition tick (n : node) : node * N := (n_set_clock n (n_clock n + 1)%N, n_clo
 Definition get_db (n : node) (name : str) : option db := assoc_get String.eqb name (n_dbs n).
 Definition put_db (n : node) (name : str) (d : db) : node := n_set_dbs n (assoc_set String.eqb name d (n_dbs n)).
 
+(* create_temp_db: the id after the highest one in use (0 when there is no database) *)
+Definition next_db_id (n : node) : N :=
+  fold_left (fun acc kv => N.max acc (d_id (snd kv) + 1)) (n_dbs n) 0%N.
+
 Definition nlS : str := String nl EmptyString.
 Definition is_primary (n : node) : bool := match n_role n with Primary => true | _ => false end.
 Definition is_eligible (n : node) : bool := match n_role n with StartingUp => true | _ => false end.
@@ -595,7 +599,7 @@ Definition handle (n : node) (c : nat) (rq : request) : node * resp :=
   | RqCreateDb token name strategy =>
       if negb auth then (n, not_auth) else
       if is_primary n || sess_is_primary s then
-        let id := N.of_nat (List.length (n_dbs n)) in
+        let id := next_db_id n in           (* fix H16.2: highest id in use + 1 *)
         let '(n1, tid) := tick n in
         let '(d0, _, _) := set_value (empty_db id strategy) (mkCh "$$token" token (-1) tid false) in
         let '(n2, r) := add_database n1 name d0 in
